@@ -1,6 +1,7 @@
 (* C15 -- Range and conditional GET follow RFC 9110.  Property theorems only; proofs are in C15/*Proofs.v.
    The model (C15/RangeModel.v) is tied to src/http_range.c by Gen/GenRange.v (regenerated constants)
    and by the differential correspondence harness/range_h.c <-> extracted model. *)
+From LV Require Import Date.DateModel Date.DateProofs.
 From LV Require Import Base.Bytes Gen.GenRange C15.RangeModel C15.RangeProofs.
 Local Open Scope Z_scope.
 
@@ -65,3 +66,23 @@ Example c15_nonvacuous :
   range_parse s 10 = [(1, 9)] /\ accepted_all s 10 = [(1, 3); (8, 9)] /\
   range_parse [53;45;54]%N 5 = [].
 Proof. vm_compute. repeat split. Qed.
+
+(* ---- dates (src/http_date.c): the three HTTP-date spellings of an instant (IMF-fixdate, RFC 850, asctime) parse to that
+   instant, for every second of 1970-01-01 .. 2134-04-10 (RFC 850: two-digit years, pivot year 2023: 1974 .. 2073) *)
+Theorem imf_fixdate_parses_back : forall yc t, in_range t -> exists tm, str_to_tm yc (fmt_imf t) = Some tm /\ timegm tm = t.
+Proof. exact imf_roundtrip. Qed.
+Print Assumptions imf_fixdate_parses_back.
+Theorem asctime_date_parses_back : forall yc t, in_range t -> exists tm, str_to_tm yc (fmt_asctime t) = Some tm /\ timegm tm = t.
+Proof. exact asctime_roundtrip. Qed.
+Theorem rfc850_date_parses_back : forall t, in_range t -> (1461 <= t / 86400 < 37985)%Z ->
+  exists tm, str_to_tm 123 (fmt_850 t) = Some tm /\ timegm tm = t.
+Proof. exact rfc850_roundtrip. Qed.
+Print Assumptions rfc850_date_parses_back.
+
+(* If-Modified-Since: a resource last modified exactly at the instant the client names, in whichever spelling, is "not
+   modified" (304); one second later it is "modified".  The comparison operator is re-read from http_date.c on every run. *)
+Theorem if_modified_since_does_not_depend_on_spelling : forall t, in_range t ->
+  if_modified_since 123 (fmt_imf t) t = false /\ if_modified_since 123 (fmt_asctime t) t = false /\
+  ((1461 <= t / 86400 < 37985)%Z -> if_modified_since 123 (fmt_850 t) t = false).
+Proof. exact ims_independent_of_spelling. Qed.
+Print Assumptions if_modified_since_does_not_depend_on_spelling.
